@@ -40,7 +40,7 @@ CHECKS["C20"] = {
          "quick": {"n": 48, "shards": 16}, "thorough": {"n": 960, "shards": 16}},
     ],
     "quick": {"n": 60000, "shards": 8, "mem_kb": 6 * 1024 * 1024},
-    "thorough": {"n": 2400000, "shards": 16, "mem_kb": 6 * 1024 * 1024},
+    "thorough": {"n": 1200000, "shards": 16, "mem_kb": 6 * 1024 * 1024},
     "level_text": "randomised search (rapid) over grammar-generated configuration documents plus byte mutations, and over generated trees; "
                   "oracle = no panic / returns under a watchdog / result fully expanded, well-named, depth-bounded / print-parse round trip. "
                   "Thorough tier adds native coverage-guided fuzzing of the same oracle.",
